@@ -133,6 +133,8 @@ def render(am, world_box, class_name=None, strict_states=False, uid=None):
                 if e not in ev_objs:
                     ev_objs[e] = Event()
                     attrs[e] = ev_objs[e]
+    decorated = dict(am.get("decorator_events", {}))  # event id -> label of the function given with @transitions
+    tls_of = {e: [] for e in decorated}
     for t in am["transitions"]:
         kw = {}
         for g in ("validators", "cond", "unless", "before", "on", "after"):
@@ -147,9 +149,21 @@ def render(am, world_box, class_name=None, strict_states=False, uid=None):
             evs = [ev_objs[e] for e in t["events"]]
             states[t["src"]].to(states[t["tgt"]], event=evs[0] if len(evs) == 1 else evs, **kw)
         else:
-            states[t["src"]].to(states[t["tgt"]], event=" ".join(t["events"]), **kw)
+            tl = states[t["src"]].to(states[t["tgt"]], event=" ".join(t["events"]), **kw)
+            for e in t["events"]:
+                if e in tls_of:
+                    tls_of[e].append(tl)
     methods = am.get("methods", {})
+    for e, label in decorated.items():
+        # the documented spelling `@(t1 | t2)` / `def <event>(self): ...`: declares the event and its `on` action at once
+        if tls_of[e]:
+            tl = tls_of[e][0]
+            for more in tls_of[e][1:]:
+                tl = tl | more
+            attrs[e] = tl(make_method(world_box, "machine", label, ("machine", label) in asyncs, uid))
     for name in methods.get("machine", []):
+        if name in decorated.values():
+            continue  # lives on the class as the decorated function above, not as an attribute of its own
         attrs[name] = make_method(world_box, "machine", name, ("machine", name) in asyncs, uid, ("machine", name) in plain_wrapped, ("machine", name) in sigged)
     for name, val in am.get("class_attrs", {}).items():
         attrs[name] = val
